@@ -22,6 +22,9 @@ import (
 
 type c19Case struct {
 	Edits []string `json:"edits"` // valid lexerr parseerr semerr empty deleted
+	// Burst[i] > 0: edit i+1 is saved (and its reload requested) that many milliseconds after the
+	// reload for edit i was requested, i.e. while that reload is still in flight - two quick saves
+	Burst []int `json:"burst,omitempty"`
 }
 
 var c19Kinds = []string{"valid", "lexerr", "parseerr", "semerr", "empty", "deleted"}
@@ -31,6 +34,11 @@ func genC19(rt *rapid.T) c19Case {
 	var c c19Case
 	for i := 0; i < n; i++ {
 		c.Edits = append(c.Edits, c19Kinds[lang.Spread(rt, "k", len(c19Kinds))])
+		b := 0
+		if lang.Spread(rt, "burst", 100) < 30 {
+			b = []int{1, 30, 120, 220}[lang.Spread(rt, "gap", 4)]
+		}
+		c.Burst = append(c.Burst, b)
 	}
 	return c
 }
@@ -117,7 +125,7 @@ func runC19(c c19Case) evid.Outcome {
 	emptyPossible := false // an empty file was saved since: "no routes" is an acceptable loaded version too
 	failedSeen, recovered := false, false
 	history := []string{"v0"}
-	for i, kind := range c.Edits {
+	save := func(i int, kind string) {
 		switch kind {
 		case "deleted":
 			os.Remove(file)
@@ -127,7 +135,8 @@ func runC19(c c19Case) evid.Outcome {
 		default:
 			os.WriteFile(file, []byte(c19Source(kind, 1000+i)), 0o644)
 		}
-		m.reload() // what the watcher's debounce timer calls after a change
+	}
+	account := func(kind string) {
 		switch kind {
 		case "valid":
 			lastGood, emptyPossible = version, false
@@ -140,12 +149,48 @@ func runC19(c c19Case) evid.Outcome {
 			failedSeen = true
 		}
 		history = append(history, kind)
+	}
+	bursts := 0
+	for i := 0; i < len(c.Edits); i++ {
+		kind := c.Edits[i]
+		alsoGood := -1 // a burst whose second save fails may or may not have loaded the first one
+		if i < len(c.Burst) && c.Burst[i] > 0 && i+1 < len(c.Edits) {
+			// two quick saves: the second reload is requested while the first is in flight
+			bursts++
+			save(i, kind)
+			done := make(chan struct{}, 2)
+			go func() { m.reload(); done <- struct{}{} }()
+			time.Sleep(time.Duration(c.Burst[i]) * time.Millisecond)
+			before := lastGood
+			account(kind)
+			first := lastGood
+			history[len(history)-1] += fmt.Sprintf("(+%dms)", c.Burst[i])
+			i++
+			kind = c.Edits[i]
+			save(i, kind)
+			go func() { m.reload(); done <- struct{}{} }()
+			<-done
+			<-done
+			account(kind)
+			if kind != "valid" && first != before {
+				// the first save was valid: it loaded if its reload read the file before the second save
+				// landed, otherwise nothing new loaded - the property allows both
+				alsoGood, lastGood = before, first
+			}
+		} else {
+			save(i, kind)
+			m.reload() // what the watcher's debounce timer calls after a change
+			account(kind)
+		}
 		st, body, err := c19Get(port)
 		desc := fmt.Sprintf("after edits %v: GET /v -> %d %q (err %v); most recent good version is %d", history, st, body, err, lastGood)
 		if err != nil {
 			return evid.Failf("c19.server-down-after-failed-reload", "nothing answers on the port any more\n%s", desc)
 		}
 		okGood := st == 200 && normJSON(body) == fmt.Sprintf(`{"v":%d}`, lastGood)
+		if !okGood && alsoGood >= 0 && st == 200 && normJSON(body) == fmt.Sprintf(`{"v":%d}`, alsoGood) {
+			okGood, lastGood = true, alsoGood
+		}
 		okEmpty := emptyPossible && st == 404
 		if !okGood && !okEmpty {
 			key := "c19.wrong-version-served"
@@ -162,13 +207,16 @@ func runC19(c c19Case) evid.Outcome {
 			}
 		}
 	}
-	return evid.Outcome{Nontrivial: failedSeen, Labels: func() []string {
+	return evid.Outcome{Nontrivial: failedSeen || bursts > 0, Labels: func() []string {
 		l := []string{}
 		if recovered {
 			l = append(l, "failing-edit-then-valid-edit")
 		}
 		if failedSeen {
 			l = append(l, "has-failing-edit")
+		}
+		if bursts > 0 {
+			l = append(l, "two-saves-in-quick-succession")
 		}
 		return l
 	}()}
